@@ -424,6 +424,19 @@ impl<'a, 'tcx> Visitor<'tcx> for BV<'a, 'tcx> {
             let s = format!("[\"fnref\",{},{}]", esc(&cname(self.tcx, *did)), self.line(c.span));
             self.push(loc.block, s);
         }
+        // named constants / statics used by value: edges to their initialiser bodies
+        if let mir::Const::Unevaluated(uv, _) = c.const_ {
+            if interesting_crate(self.tcx, uv.def) && uv.promoted.is_none() {
+                let s = format!("[\"constref\",{},{}]", esc(&cname(self.tcx, uv.def)), self.line(c.span));
+                self.push(loc.block, s);
+            }
+        }
+        if let Some(did) = c.check_static_ptr(self.tcx) {
+            if interesting_crate(self.tcx, did) {
+                let s = format!("[\"staticref\",{},{}]", esc(&cname(self.tcx, did)), self.line(c.span));
+                self.push(loc.block, s);
+            }
+        }
     }
 
     fn visit_rvalue(&mut self, rv: &Rvalue<'tcx>, loc: Location) {
@@ -523,8 +536,25 @@ impl<'a, 'tcx> Visitor<'tcx> for BV<'a, 'tcx> {
     fn visit_statement(&mut self, st: &mir::Statement<'tcx>, loc: Location) {
         if let StatementKind::Assign(b) = &st.kind {
             let (place, rv) = &**b;
-            // record simple local-to-local data flow for designated functions only (see FULL)
-            let _ = (place, rv);
+            // simple value flow: dest-local <- place (copies, moves, borrows, derefs, casts of a place)
+            if place.projection.is_empty() {
+                let src: Option<&Place<'tcx>> = match rv {
+                    Rvalue::Use(Operand::Copy(p) | Operand::Move(p), ..) => Some(p),
+                    Rvalue::Ref(_, _, p) => Some(p),
+                    Rvalue::RawPtr(_, p) => Some(p),
+                    Rvalue::CopyForDeref(p) => Some(p),
+                    Rvalue::Cast(_, Operand::Copy(p) | Operand::Move(p), _) => Some(p),
+                    _ => None,
+                };
+                if let Some(p) = src {
+                    let s = format!(
+                        "[\"mv\",\"_{}\",{}]",
+                        place.local.as_usize(),
+                        esc(&self.place_str(p))
+                    );
+                    self.push(loc.block, s);
+                }
+            }
         }
         self.super_statement(st, loc);
     }
@@ -623,6 +653,32 @@ fn dump_body<'tcx>(tcx: TyCtxt<'tcx>, def_id: DefId, body: &Body<'tcx>, out: &mu
                         }
                     }
                 }
+                // compile-time constant discriminant (cfg!(..), const bools): lets rules prune dead arms
+                let mut cv = String::from("null");
+                match discr {
+                    Operand::Constant(_) => {
+                        let s = bv.operand_str(discr);
+                        if let Some(v) = s.strip_prefix("const:") {
+                            cv = esc(v);
+                        }
+                    }
+                    Operand::Copy(p) | Operand::Move(p) if p.projection.is_empty() => {
+                        for st in data.statements.iter().rev() {
+                            if let StatementKind::Assign(b) = &st.kind {
+                                if b.0.local == p.local && b.0.projection.is_empty() {
+                                    if let Rvalue::Use(op @ Operand::Constant(_), ..) = &b.1 {
+                                        let s = bv.operand_str(op);
+                                        if let Some(v) = s.strip_prefix("const:") {
+                                            cv = esc(v);
+                                        }
+                                    }
+                                    break;
+                                }
+                            }
+                        }
+                    }
+                    _ => {}
+                }
                 let mut tv: Vec<String> = Vec::new();
                 for (val, tb) in targets.iter() {
                     let label = match &variants {
@@ -637,12 +693,13 @@ fn dump_body<'tcx>(tcx: TyCtxt<'tcx>, def_id: DefId, body: &Body<'tcx>, out: &mu
                 }
                 let _ = write!(
                     t,
-                    "\"k\":\"switch\",\"on\":{},\"place\":{},\"targets\":{},\"otherwise\":{},\"line\":{}",
+                    "\"k\":\"switch\",\"on\":{},\"place\":{},\"targets\":{},\"otherwise\":{},\"line\":{},\"cv\":{}",
                     esc(&on),
                     esc(&on_place),
                     arr(&tv),
                     targets.otherwise().as_usize(),
-                    tline
+                    tline,
+                    cv
                 );
             }
             TerminatorKind::Assert { cond, expected, msg, target, .. } => {
